@@ -3,7 +3,11 @@
 //! Two representations here: [`Node`] is the friendly one with all the data,
 //! [`NodeRecord`] is the compact 32-byte struct for storage.
 
+#[cfg(not(kani))]
 use std::collections::BTreeMap;
+// verification builds (`cargo kani`): association-list stand-in (leaks on drop), see grafeo_common::utils::kani_shim
+#[cfg(kani)]
+use grafeo_common::utils::hash::FxHashMap as BTreeMap;
 
 use arcstr::ArcStr;
 use grafeo_common::types::{EpochId, NodeId, PropertyKey, Value};
